@@ -127,6 +127,10 @@ type ReaderSpec struct {
 	ViaUpgrade bool  `json:"via_upgrade,omitempty"` // Conn made by Upgrader.Upgrade from a hijacked reader (BrSize, Buffered)
 	ViaDial    bool  `json:"via_dial,omitempty"`    // Conn made by Dialer.Dial; the server sends 101 + Chunks' bytes, cut at DialSplit
 	DialSplit  int   `json:"dial_split,omitempty"`
+	// Resume: the fault (a timeout or arbitrary error, reported alone) is transient; the transport then
+	// delivers these chunks.  Not part of the case line: the model latches the first error and never
+	// touches the transport again (C05_errors_are_permanent), so its prediction is the one for Chunks+Fault.
+	Resume []B `json:"resume,omitempty"`
 }
 
 type hErr struct{ id int }
@@ -202,6 +206,13 @@ func readerExec(s core.Spec) core.Exec {
 		total += len(c)
 	}
 	sc := NewScriptConn(chunks, sp.Fault, sp.Glued)
+	if len(sp.Resume) > 0 && sp.Fault != 0 && !sp.Glued {
+		for _, c := range sp.Resume {
+			if len(c) > 0 {
+				sc.Resume = append(sc.Resume, c)
+			}
+		}
+	}
 	var br *bufio.Reader
 	var c *websocket.Conn
 	skipWritten := 0
